@@ -73,4 +73,9 @@ def saveRestore (items : List Item) (idx : List Nat) (a b : Xo) : Option (Xo × 
   | none => none
   | some t => readState idx b t false
 
+/-- the save format for which the round trip is proved -/
+def goodItems : List Item := [.st 0, .ch ' ', .st 1, .ch ' ', .st 2, .ch ' ', .st 3]
+def goodIdx : List Nat := [0, 1, 2, 3]
+
+
 end Vita.C07
